@@ -731,6 +731,10 @@ func (e *termEval) entryTerm(l loc, at ssa.Instruction, fr *frame) *Term {
 		}
 		return &Term{Kind: "param", Name: m.declName(o.Parent()) + "." + name}
 	}
+	// an object built by a package constructor: the field's value at the constructor's returns
+	if t := e.constructedField(l.obj, l.field, fr); t != nil {
+		return t
+	}
 	// field of an opaque pointer value
 	if l.field >= 0 {
 		base := e.term(l.obj, at, fr)
@@ -939,12 +943,28 @@ func (m *Model) writeUnits(e *termEval) []*writeUnit {
 			if dw.Site.Fn == K {
 				fr, point = kfr, dw.Site.Call
 			} else {
-				// helper called from K
-				m.eachCall(K, func(c ssa.CallInstruction) {
-					if callee := c.Common().StaticCallee(); callee == dw.Site.Fn {
-						fr, point = kfr.inline(c, callee), c
-					}
-				})
+				// helper called from K, possibly through other write helpers
+				var chain func(cur *frame, fn *ssa.Function, top ssa.Instruction, depth int)
+				chain = func(cur *frame, fn *ssa.Function, top ssa.Instruction, depth int) {
+					m.eachCall(fn, func(c ssa.CallInstruction) {
+						callee := c.Common().StaticCallee()
+						if callee == nil || !m.inPkg(callee) || len(callee.Blocks) == 0 {
+							return
+						}
+						t := top
+						if t == nil {
+							t = c
+						}
+						if callee == dw.Site.Fn {
+							fr, point = cur.inline(c, callee), t
+							return
+						}
+						if depth < 2 && callee != m.A.TxnRunner && callee != m.A.Allocator && m.isWriteHelper(callee) && m.reachableLocal(callee)[dw.Site.Fn] {
+							chain(cur.inline(c, callee), callee, t, depth+1)
+						}
+					})
+				}
+				chain(kfr, K, nil, 0)
 			}
 			if fr == nil {
 				continue
@@ -1100,6 +1120,11 @@ func (m *Model) isFailureReturn(ret *ssa.Return) bool {
 	if _, ok := errV.(*ssa.MakeInterface); ok {
 		return true
 	}
+	if ld, ok := errV.(*ssa.UnOp); ok {
+		if _, isG := ld.X.(*ssa.Global); isG {
+			return true // a sentinel error variable
+		}
+	}
 	// origins of the returned error
 	origins := map[ssa.Value]bool{}
 	var collect func(v ssa.Value, d int)
@@ -1145,4 +1170,68 @@ func (m *Model) isFailureReturn(ret *ssa.Return) bool {
 		}
 	}
 	return false
+}
+
+// constructedField: obj is the (pointer) result of a call to a package function; the term of
+// its field is the field's value in the object the callee returns, evaluated in the inlined frame.
+func (e *termEval) constructedField(obj ssa.Value, field int, fr *frame) *Term {
+	m := e.m
+	if field < 0 || fr == nil {
+		return nil
+	}
+	var call *ssa.Call
+	idx := 0
+	switch x := obj.(type) {
+	case *ssa.Call:
+		call = x
+	case *ssa.Extract:
+		c, ok := x.Tuple.(*ssa.Call)
+		if !ok {
+			return nil
+		}
+		call, idx = c, x.Index
+	default:
+		return nil
+	}
+	callee := call.Common().StaticCallee()
+	if callee == nil || !m.inPkg(callee) || len(callee.Blocks) == 0 || fr.depth >= 3 || fr.fn != call.Parent() {
+		return nil
+	}
+	cfr := fr.inline(call, callee)
+	rd := m.reaching(callee)
+	var ts []*Term
+	for _, ret := range returnsOf(callee) {
+		if idx >= len(ret.Results) || m.isFailureReturn(ret) {
+			continue
+		}
+		state := rd.at[ret]
+		var objs []ssa.Value
+		var collect func(v ssa.Value, depth int)
+		collect = func(v ssa.Value, depth int) {
+			v = stripConv(v)
+			if phi, ok := v.(*ssa.Phi); ok && depth < 4 {
+				for _, ed := range phi.Edges {
+					collect(ed, depth+1)
+				}
+				return
+			}
+			if c, ok := v.(*ssa.Const); ok && c.Value == nil {
+				return
+			}
+			objs = append(objs, m.objOf(v, state))
+		}
+		collect(ret.Results[idx], 0)
+		for _, o := range objs {
+			l := loc{o, field}
+			ds, have := state[l]
+			if !have {
+				ds = defset{entryDef}
+			}
+			ts = append(ts, e.defsTerm(l, ds, ret, cfr))
+		}
+	}
+	if len(ts) == 0 {
+		return nil
+	}
+	return mkPhi(ts)
 }
